@@ -152,6 +152,10 @@ func witnessReserved(ip net.IP, prefix int) (net.IP, bool) {
 }
 
 func judgeC19(rec *stats.Rec, c c19Case) (string, string) {
+	return apiGuard(func() (string, string) { return judgeC19Inner(rec, c) })
+}
+
+func judgeC19Inner(rec *stats.Rec, c c19Case) (string, string) {
 	switch c.What {
 	case "addr":
 		ip := net.ParseIP(c.IP)
